@@ -15,14 +15,38 @@ import (
 type c09World struct {
 	n, u *shimWorld
 	c    *ev.Ctx
+	pre  []bfs.Op
 }
 
 func newC09World(c *ev.Ctx, root string) bfs.World {
+	// "both:<initial contents>[|<op> <arg>;<op> <arg>…]": the part after '|' is a pre-history applied to the freshly built
+	// servers, so that the bounded search also starts from states a long-lived server reaches after use
+	pre := ""
+	if i := strings.Index(root, "|"); i >= 0 {
+		root, pre = root[:i], root[i+1:]
+	}
 	_, init := parseRoot(root)
-	return &c09World{n: newShimWorld(true, init, nil), u: newShimWorld(false, init, nil), c: c}
+	x := &c09World{n: newShimWorld(true, init, nil), u: newShimWorld(false, init, nil), c: c}
+	if pre != "" {
+		for _, o := range strings.Split(pre, ";") {
+			f := strings.Fields(o)
+			op := bfs.Op{Name: f[0]}
+			if len(f) > 1 {
+				op.Arg = f[1]
+			}
+			x.pre = append(x.pre, op)
+		}
+	}
+	return x
 }
 
-func (x *c09World) Init() []bfs.Finding { return nil }
+// Init applies the pre-history (judged like any other transition).
+func (x *c09World) Init() (fs []bfs.Finding) {
+	for _, op := range x.pre {
+		fs = append(fs, x.Apply(op)...)
+	}
+	return
+}
 func (x *c09World) Close() { x.n.Close(); x.u.Close() }
 func (x *c09World) Key() string {
 	return "N[" + x.n.baseKey() + "] U[" + x.u.baseKey() + "]"
@@ -209,7 +233,7 @@ func checkC09(c *ev.Ctx) {
 			c.Violation("C09:harness:fixture", "near-miss fixture "+n+" decodes as a YSSHCA KeyID", nil)
 		}
 	}
-	c.Rule("E1 BFS, two real shims (no-upstream on/off) driven in lock-step over identical underlying agents: Add(12: YSSHCA KeyIDs of every type, near misses missing-field/version-2/inconsistent, free text, empty, plain key), AddHardCert(3, one equal to an underlying YSSHCA certificate), Remove(4), RemoveAll, List, Signers, Sign(7), certificates added behind the shim's back; roots = all 16 subsets of a 4-identity generating set; oracle: absolute multiset formulas against ground truth and the reflected memory table in both modes. non-trivial = listing with >=1 hidden certificate, or sign/remove naming a hidden certificate; distinct by (operation, underlying set, memory set)")
+	c.Rule("E1 BFS, two real shims (no-upstream on/off) driven in lock-step over identical underlying agents: Add(12: YSSHCA KeyIDs of every type, near misses missing-field/version-2/inconsistent, free text, empty, plain key), AddHardCert(3, one equal to an underlying YSSHCA certificate), Remove(4), RemoveAll, List, Signers, Sign(7), certificates added behind the shim's back; roots = all 16 subsets of a 4-identity generating set as initial contents, plus 8 used servers (a pre-history of add + listing applied after construction); oracle: absolute multiset formulas against ground truth and the reflected memory table in both modes. non-trivial = listing with >=1 hidden certificate, or sign/remove naming a hidden certificate; distinct by (operation, underlying set, memory set)")
 	c.Assume("Y(x) is the property's own definition: keyid.Unmarshal accepts x.KeyId (evaluated once per fixture)", "both worlds are built from the same fixtures")
 	gen := []string{"K1", "y.touch", "n.missing", "y.inagent"}
 	var roots []string
@@ -221,6 +245,12 @@ func checkC09(c *ev.Ctx) {
 			}
 		}
 		roots = append(roots, "both:"+strings.Join(s, ","))
+	}
+	// used servers: a certificate added after construction and already classified by a listing
+	for _, init := range []string{"", "K1"} {
+		for _, pre := range []string{"Add y.touch;List", "Add y.touch;Signers", "Add y.inagent;List", "Add n.free;List;Add y.nonce;Signers"} {
+			roots = append(roots, "both:"+init+"|"+pre)
+		}
 	}
 	depth := 4
 	if c.Thorough() {
